@@ -59,8 +59,6 @@ var r02bTable = map[string]guardedReason{
 	"goose.Ctx.packageMethod|call.Args":                                        {"\"DPrintf\" == f.Sel.Name", "documented hack in the source: util.DPrintf has no observable behaviour in GooseLang, its variadic arguments are deliberately replaced by #()"},
 	"goose.Ctx.makeSliceExpr|args":                                             {"", "args[0] is only the reported node of the rejection for a wrong argument count"},
 	"goose.Ctx.makeExpr|args":                                                  {"", "make(T, n[, c]): the remaining arguments are consumed by makeSliceExpr, which rejects other counts"},
-	"goose.Ctx.constDecl|d.Specs[(phi:rangeindex + 1)].(*ValueSpec).Names":     {"", "registration of the first name only; constSpec (called next) rejects specs with several names"},
-	"goose.Ctx.globalVarDecl|d.Specs[(phi:rangeindex + 1)].(*ValueSpec).Names": {"", "registration of the first name only; constSpec (called next) rejects specs with several names"},
 }
 
 func checkR02b(p *Prog, r *Report) {
@@ -156,6 +154,25 @@ func checkR02b(p *Prog, r *Report) {
 				}
 				if pa, ok := s.x.X.(*ssa.Parameter); ok && hit == "" {
 					_ = pa
+				}
+				if hit == "" {
+					// a later call in the same block (reached on every continuing path) rejects longer slices
+					seen := false
+					for _, in2 := range s.x.Block().Instrs {
+						if in2 == ssa.Instruction(s.x) {
+							seen = true
+							continue
+						}
+						c2, ok := in2.(*ssa.Call)
+						if !seen || !ok {
+							continue
+						}
+						if post := p.callPost(c2, 0); post != nil {
+							if ub2 := lenUpperBound(post, sliceKey); ub2 >= 0 && ub2 <= maxK+1 {
+								hit = fmt.Sprintf("the call of %s that follows on every continuing path returns only when the slice has at most %d element(s)", calleeName(c2), ub2)
+							}
+						}
+					}
 				}
 				if hit != "" {
 					why = hit
